@@ -1,22 +1,67 @@
 """Per-property configuration of /verif/check (which theorem modules, which engines, which failures count)."""
 
 SEQ_TRUST = ["translator /verif/tools/gen (Go AST -> Lean, integer leaf code and call-site expressions)",
-             "correspondence: /verif/harness (Go, public API, manual clock, same-goroutine executor) + Spec.Check judge (Lean executable)",
-             "modelled, not verified: Go runtime, hash table internals, user callbacks as script data"]
+             "correspondence: /verif/harness (Go, in-module via go build -overlay, public API, manual clock, same-goroutine or manually pumped executor) "
+             "+ Spec.Check judge (Lean executable seqdrv); strength bounded by the script generators",
+             "modelled, not verified: Go runtime, hash table internals (C15), user callbacks/loaders/calculators as script data"]
+SEQ_RULE = ('SEQ scripts generated from VERIF_SEED (profiles listed under coverage.engines.seq.profiles) executed on the real cache and judged against Spec; '
+            'corpus of minimised past failures runs first; distinct = distinct transcripts; non-trivial = >= 10 operations and at least one deletion event or loader call')
+ITER_OPS = ('op_all', 'op_keys', 'op_values', 'op_hottest', 'op_coldest')
 
 
-def any_fail(f):
-    return True
+def seq(profiles, quick, thorough, accept):
+    return {'kind': 'seq', 'profiles': profiles, 'quick': quick, 'thorough': thorough, 'accept': accept}
 
 
 PROPS = {
+    'C01': {
+        'modules': ['OtterVerif.Props.C01', 'OtterVerif.Props.C03', 'OtterVerif.Props.C06', 'OtterVerif.Props.C07'],
+        'engines': [seq(['mix', 'load', 'expiry', 'bound', 'persist', 'huge', 'deferred'], 420, 14000,
+                        lambda f: not (f['class'] in ('C04', 'C05') and f['k1risk'] == 1))],
+    },
+    'C03': {
+        'modules': ['OtterVerif.Props.C03'],
+        'engines': [seq(['expiry', 'mix', 'persist', 'load'], 320, 10000,
+                        lambda f: f['dead'] == 1 or 'C03' in f['msg'] or (f['op'] in ITER_OPS and f['class'] == 'events'))],
+    },
+    'C06': {
+        'modules': ['OtterVerif.Props.C06'],
+        'engines': [seq(['mix', 'bound', 'expiry', 'deferred'], 320, 10000, lambda f: f['class'] in ('C06', 'events'))],
+    },
+    'C07': {
+        'modules': ['OtterVerif.Props.C07'],
+        'engines': [seq(['bound', 'mix', 'expiry'], 300, 10000, lambda f: f['class'] == 'events')],
+    },
+    'C09': {
+        'modules': ['OtterVerif.Props.C10'],
+        'engines': [seq(['load'], 300, 10000, lambda f: f['nested'] == 1 and f['class'] in ('result', 'events', 'entry', 'C10', 'C11'))],
+    },
+    'C10': {
+        'modules': ['OtterVerif.Props.C10'],
+        'engines': [seq(['load', 'mix'], 300, 10000,
+                        lambda f: f['class'] in ('C10', 'C08') or (f['op'] in ('end', 'call', 'ret') and f['class'] in ('result', 'events')))],
+    },
+    'C11': {
+        'modules': ['OtterVerif.Props.C11', 'OtterVerif.Props.C10'],
+        'engines': [seq(['load', 'deferred'], 300, 10000,
+                        lambda f: f['class'] == 'C11' or (f['op'] in ('end', 'call', 'ret') and f['class'] in ('result', 'events')))],
+    },
     'C12': {
         'modules': ['OtterVerif.Props.C12'],
-        'engines': [{'kind': 'seq', 'profiles': ['huge', 'expiry'], 'quick': 200, 'thorough': 6000,
-                     'accept': lambda f: f['class'] in ('entry', 'result', 'events') and f['op'] not in ('end', 'call')}],
-        'rule': 'SEQ scripts (profiles huge/expiry: durations up to MaxInt64, clock origins incl. today and near MaxInt64) judged against Spec; '
-                'distinct = distinct transcripts; non-trivial = >= 10 operations and at least one deletion event or loader call',
-        'trusted': SEQ_TRUST,
-        'assumptions': ['int64 arithmetic of Go modelled as Int with explicit two\'s-complement wrap (wrapS 64)'],
+        'engines': [seq(['huge', 'expiry'], 200, 6000,
+                        lambda f: f['class'] in ('entry', 'result', 'events') and f['op'] not in ('end', 'call', 'ret'))],
+        'assumptions': ["int64 arithmetic of Go modelled as Int with explicit two's-complement wrap (wrapS 64)"],
+    },
+    'C19': {
+        'modules': ['OtterVerif.Props.C19'],
+        'engines': [seq(['persist'], 200, 6000, lambda f: f['class'] == 'C19')],
+        'assumptions': ['encoding/gob is the real encoder/decoder (not modelled)'],
+    },
+    'C20': {
+        'modules': ['OtterVerif.Props.C20'],
+        'engines': [seq(['mix', 'load', 'bound'], 300, 10000, lambda f: f['class'] == 'C20')],
     },
 }
+for _p in PROPS.values():
+    _p.setdefault('rule', SEQ_RULE)
+    _p.setdefault('trusted', SEQ_TRUST)
